@@ -5,16 +5,18 @@ from vlib.core import Machinery
 LEVEL = "model_checking"
 
 BASE = dict(Keys={1}, MaxTs=2, NCallers=3, MaxCalls=3, CmpStrict=True, WriteInLock=True, StoreFirst=False,
-            CountReject=True, ReturnOnReject=True, SharedRegister=False)
+            CountReject=True, ReturnOnReject=True, SharedRegister=False, KeyAfterRewrite=False, Fold=False, Blacklisted=set())
 
 
 def model_check(ctx):
     if os.environ.get("VERIF_SKIP_MC"):      # only for trying changes of the Go code out (scratch worktree): the model is unaffected
         ctx.note("model checking skipped (VERIF_SKIP_MC)")
         return
-    grid = [dict(BASE), dict(BASE, Keys={1, 2}, NCallers=2)]
+    # the last one: a rewriter folds both keys into one emitted name, key 2 is blacklisted
+    grid = [dict(BASE), dict(BASE, Keys={1, 2}, NCallers=2), dict(BASE, Keys={1, 2}, NCallers=2, Fold=True, Blacklisted={2})]
     if not ctx.quick():
-        grid += [dict(BASE, MaxTs=3, MaxCalls=4), dict(BASE, Keys={1, 2}, NCallers=3, MaxCalls=4)]
+        grid += [dict(BASE, MaxTs=3, MaxCalls=4), dict(BASE, Keys={1, 2}, NCallers=3, MaxCalls=4),
+                 dict(BASE, Keys={1, 2, 3}, NCallers=2, MaxCalls=4, Fold=True, Blacklisted={3})]
     for c in grid:
         ctx.tlc("Ordered", "Ordered_mc.cfg", consts=c, workers=ctx.pick(4, 6), timeout=3000)
     dev = [("CmpStrict", False, {"Mono", "OnlyNewer", "Independent"}, {}),
@@ -22,7 +24,9 @@ def model_check(ctx):
            ("StoreFirst", True, {"Mono", "OnlyNewer", "Independent"}, {}), ("CountReject", False, {"Accounting"}, {}),
            ("ReturnOnReject", False, {"Accounting", "FwdOK"}, {}),
            # shared_register_on_collision: two keys, one register (needs two keys to show)
-           ("SharedRegister", True, {"NoFalseReject", "Independent"}, dict(Keys={1, 2}, NCallers=2))]
+           ("SharedRegister", True, {"NoFalseReject", "Independent"}, dict(Keys={1, 2}, NCallers=2)),
+           # key_after_rewrite: the register is chosen by the emitted name; shows when a rewriter folds two keys into one
+           ("KeyAfterRewrite", True, {"NoFalseReject", "Independent"}, dict(Keys={1, 2}, NCallers=2, Fold=True))]
     rej = []
     for name, val, expect, more in dev:
         r = ctx.tlc("Ordered", "Ordered_mc.cfg", consts=dict(BASE, **dict(more, **{name: val})), workers=4, expect_ok=False,
@@ -78,7 +82,9 @@ def split(events):
     return blocks
 
 
-def validate(ctx, name, blocks, on_reject, max_rounds=6):
+def validate(ctx, name, blocks, on_reject, max_rounds=6, group=None):
+    """group: blocks with the same group(b) are judged together (the total of a fold history needs all its blocks):
+    when one is rejected all of them are taken out before the rest is validated again"""
     blocks = list(blocks)
     nb, nrej = len(blocks), 0
     for rnd in range(max_rounds):
@@ -97,7 +103,11 @@ def validate(ctx, name, blocks, on_reject, max_rounds=6):
             if matched < pos + len(b):
                 on_reject(b, matched - pos)
                 nrej += 1
-                del blocks[bi]
+                if group:
+                    gid = group(b)
+                    blocks = [x for x in blocks if group(x) != gid]
+                else:
+                    del blocks[bi]
                 break
             pos += len(b)
         else:
@@ -201,6 +211,183 @@ def many_names(ctx):
     return tot["n"]
 
 
+def gen_fold(ctx, n, rng):
+    """histories on a table with a rewriter that folds the nk input names of the history into one emitted name and a
+    blacklist entry for (at most) one of them.  Patterns: seq = one goroutine, the names one after the other, every name
+    with increasing timestamps of its own but LOWER than those of the names before it; lanes = goroutines per name, every
+    name in its own timestamp range; mix = every goroutine sends random names with timestamps from a range of 6.
+    The points of the blacklisted name come from one goroutine with strictly increasing positive timestamps (each is newer
+    than all earlier points of its name: the property leaves no room for rejecting them; where a stale blacklisted point
+    is accounted is C02's matter)."""
+    phases = []
+    for h in range(n):
+        pat = "seq" if h < 8 else rng.choice(["seq", "lanes", "lanes", "mix", "mix"])
+        nplain = rng.choice([2, 2, 3, 4])
+        has_blk = rng.random() < 0.6
+        nk = nplain + (1 if has_blk else 0)
+        blk = rng.randrange(nk) if has_blk else -1
+        plain = [i for i in range(nk) if i != blk]
+        base = rng.choice([1, 1, 5, 1000, 1500000000, 2147480000])
+        dot = lambda: rng.random() < 0.3
+        calls = []
+        if pat == "seq":
+            cs = []
+            rounds = rng.choice([2, 3])
+            for r in range(rounds):
+                for pos, k in enumerate(plain):
+                    ts = base + (len(plain) - pos) * 50 + r * 10
+                    cs.append(dict(k=k, dot=dot(), ts=ts))
+                    if rng.random() < 0.35:      # the same or an older timestamp again: to be rejected
+                        cs.append(dict(k=k, dot=dot(), ts=ts - rng.choice([0, 0, 1])))
+            calls.append(cs)
+        elif pat == "lanes":
+            offs = list(range(len(plain)))
+            rng.shuffle(offs)
+            for pos, k in enumerate(plain):
+                lanes = rng.choice([1, 2, 2])
+                m = rng.choice([2, 3, 4])
+                sub = rng.choice(["inc", "same", "dec", "mix"])
+                for gi in range(lanes):
+                    cs = []
+                    for j in range(m):
+                        if sub == "inc":
+                            ts = j * lanes + gi
+                        elif sub == "same":
+                            ts = j
+                        elif sub == "dec":
+                            ts = (m - j) * lanes - gi
+                        else:
+                            ts = rng.randrange(0, 5)
+                        cs.append(dict(k=k, dot=dot(), ts=base + offs[pos] * 40 + ts))
+                    calls.append(cs)
+            rng.shuffle(calls)
+        else:
+            g = rng.choice([3, 4, 6])
+            m = rng.choice([2, 3, 4])
+            for gi in range(g):
+                calls.append([dict(k=rng.choice(plain), dot=dot(), ts=base + rng.randrange(0, 6)) for _ in range(m)])
+        if has_blk:
+            gi = rng.randrange(len(calls))
+            cs = calls[gi]
+            nb = rng.choice([2, 3, 4])
+            # newer than anything else in the history: a register shared with the blacklisted name would show
+            pos = sorted(rng.randrange(len(cs) + 1) for _ in range(nb))
+            for j in reversed(range(nb)):
+                cs.insert(pos[j], dict(k=blk, dot=dot(), ts=base + 500 + j * 7))
+        phases.append(dict(h=h, fam="fold", pat=pat, nk=nk, blk=blk, rw=rng.choice(["regex", "plain"]), calls=calls))
+    return phases
+
+
+def fold_family(ctx, rng):
+    phases = gen_fold(ctx, ctx.pick(120, 700), rng)
+    sf = ctx.write_ndjson("ord_fold_scn.ndjson", phases)
+    tf = os.path.join(ctx.out, "ord_fold_events.ndjson")
+    res = ctx.go_test("ord", run="^TestFold$", timeout=ctx.pick(900, 3000), expect_ok=False,
+                      env=dict(VERIF_ORD_SCN=sf, VERIF_ORD_TRACE=tf))
+    events = ctx.read_ndjson(tf) if os.path.exists(tf) else []
+    if res["rc"] != 0:
+        if "panic:" in res["text"] or "fatal error:" in res["text"]:
+            ctx.violation("ordered-panics family=fold", "the relay panicked while validating order on a table with rewriters "
+                          "and a blacklist", dict(log=res["log"], tail=res["text"][-2500:]))
+            return 0
+        raise Machinery("driver ord (fold) failed (rc=%s); log %s\n%s" % (res["rc"], res["log"], res["text"][-2500:]))
+    if not events or events[-1].get("ev") != "done":
+        raise Machinery("driver ord (fold) did not finish")
+    blocks = split(events)
+    by_h = {p["h"]: p for p in phases}
+    if len(blocks) != sum(p["nk"] + 1 for p in phases):
+        raise Machinery("fold: %d blocks recorded, %d expected" % (len(blocks), sum(p["nk"] + 1 for p in phases)))
+
+    def on_reject(b, i):
+        ev, hd = b[i], b[0]
+        p = by_h.get(hd["h"], {})
+        about = ("history with %d input names folded by a %s rewriter into %r%s; block = the calls on input name %r" % (
+            p.get("nk", 0), p.get("rw"), hd.get("emitted"),
+            (", input name #%d blacklisted" % p["blk"]) if p.get("blk", -1) >= 0 else "", hd.get("name")))
+        if ev["ev"] == "end":
+            begun = [e for e in b[1:i] if e["ev"] == "begin"]
+            mine = next((e for e in begun if e["c"] == ev["c"]), {})
+            first = len(begun) == 1 and not ev["fwd"] and mine.get("ts", 0) > 0
+            sig = "not-linearizable family=fold pattern=%s%s" % (p.get("pat"), " first-point-of-input-name-rejected" if first else "")
+            what = ("no order of the critical sections of a per-input-name register explains the results of the calls on one "
+                    "input name: call %s (ts=%s) returned forwarded=%s (times=%s)%s; %s" % (
+                        ev["c"], mine.get("ts"), ev["fwd"], ev.get("times"),
+                        ", and it is the first point of that input name" if first else "", about))
+        elif ev["ev"] == "endx":
+            sig = "blacklisted-point family=fold pattern=%s" % p.get("pat")
+            what = "call %s on a blacklisted input name: forwarded=%s times=%s is not explained; %s" % (
+                ev["c"], ev["fwd"], ev.get("times"), about)
+        elif ev["ev"] == "finp":
+            sig = "rejection-accounting family=fold pattern=%s" % p.get("pat")
+            what = "bad-metrics record present=%s (call %s) does not match the rejected calls of the input name; %s" % (
+                ev["bad"], ev["badcall"], about)
+        elif ev["ev"] == "total":
+            sig = "totals family=fold pattern=%s" % p.get("pat")
+            what = ("%d calls, %d points at the route, out_of_order counter +%d: not what the decisions on the input names of "
+                    "the history explain" % (ev["n"], ev["fwd"], ev["ooo"]))
+        else:
+            sig = "trace-unmatched family=fold ev=%s" % ev["ev"]
+            what = "event not accepted: %s" % json.dumps(ev)
+        ctx.violation(sig, what, dict(phase=p, block=hd, events=b[:i + 1][-60:]))
+        ctx.sample(dict(family="fold", rejected_at=ev, input_name=hd.get("name"), emitted=hd.get("emitted"),
+                        calls=[e for e in b if e["ev"] in ("begin", "end", "endx")][:24]))
+
+    grp = lambda b: b[0]["h"]
+    nb, nrej = validate(ctx, "fold", blocks, on_reject, group=grp)
+
+    # coverage (not a verdict): histories in which a point was forwarded although a sibling input name (same emitted name)
+    # had a point with a timestamp >= its own forwarded in a call that had returned before: one register for the emitted
+    # name could not have accepted it
+    ends = [e for b in blocks for e in b if e["ev"] == "end"]
+    nfwd = sum(1 for e in ends if e["fwd"])
+    sens = set()
+    hist = {}
+    for b in blocks:
+        if b[0]["fam"] == "fold":
+            hist.setdefault(b[0]["h"], []).append(b)
+    for h, bs in hist.items():
+        if by_h[h]["pat"] != "seq":      # one goroutine: call ids are in program order = decision order
+            continue
+        ts_of = {e["c"]: (b[0]["k"], e["ts"]) for b in bs for e in b if e["ev"] == "begin"}
+        fw = {e["c"]: e["fwd"] for b in bs for e in b if e["ev"] in ("end", "endx")}
+        done = []
+        for c in sorted(ts_of):
+            k, ts = ts_of[c]
+            if fw.get(c):
+                if any(k2 != k and t2 >= ts for k2, t2 in done):
+                    sens.add(h)
+                done.append((k, ts))
+    drops = sum(1 for b in blocks for e in b if e["ev"] == "endx" and not e["fwd"])
+    if not ctx.violations:
+        if not ends or nfwd == 0 or nfwd == len(ends):
+            raise Machinery("fold: vacuous: %d calls, %d forwarded" % (len(ends), nfwd))
+        if not sens:
+            raise Machinery("fold: no history in which a point was forwarded below a sibling name's accepted timestamp (vacuous)")
+        if drops == 0:
+            raise Machinery("fold: no point of a blacklisted name was dropped (vacuous for the blacklist)")
+        # binding: a forwarded point pretended rejected, and an unexplained counter increase, must be rejected by the trace spec
+        hs = sorted(sens)[:6]
+        cand = copy.deepcopy([e for b in blocks if b[0]["h"] in hs for e in b])
+        idx = next(i for i, e in enumerate(cand) if e["ev"] == "end" and e["fwd"])
+        cand[idx]["fwd"], cand[idx]["times"] = False, 0
+        hit = []
+        validate(ctx, "selftest5", split(cand), lambda b, i: hit.append(b[i]), max_rounds=1)
+        if not hit or hit[0]["ev"] != "end":
+            raise Machinery("binding self-test failed (fold): a rejected fresh point was accepted by the trace spec")
+        cand = copy.deepcopy([e for b in blocks if b[0]["h"] in hs for e in b])
+        idx = next(i for i, e in enumerate(cand) if e["ev"] == "total")
+        cand[idx]["ooo"] += 1
+        hit = []
+        validate(ctx, "selftest6", split(cand), lambda b, i: hit.append(b[i]), max_rounds=1)
+        if not hit or hit[0]["ev"] != "total":
+            raise Machinery("binding self-test failed (fold): an unexplained out_of_order count was accepted by the trace spec")
+    ctx.cov["fold_family"] = dict(histories=len(phases), input_name_blocks=nb - len(phases), calls=len(ends) + drops,
+                                  forwarded=nfwd, rejected=len(ends) - nfwd, dropped_by_blacklist=drops,
+                                  histories_forwarding_below_a_sibling_timestamp=len(sens),
+                                  patterns={k: sum(1 for p in phases if p["pat"] == k) for k in ("seq", "lanes", "mix")})
+    return len(ends) + drops
+
+
 def run(ctx):
     model_check(ctx)
     rng = random.Random(ctx.seed)
@@ -243,8 +430,9 @@ def run(ctx):
     if not ctx.violations:
         selftest(ctx, blocks)
 
-    nmany = 0
+    nmany = nfold = 0
     if not any(v.get("sig", "").startswith("ordered-panics") for v in ctx.violations if isinstance(v, dict)):
+        nfold = fold_family(ctx, random.Random(ctx.seed * 31 + 6)) or 0
         nmany = many_names(ctx) or 0
 
     ends = [e for b in blocks for e in b if e["ev"] == "end"]
@@ -267,7 +455,7 @@ def run(ctx):
     if overl == 0 and not ctx.violations:
         raise Machinery("no history had overlapping calls (vacuous for the concurrency claim)")
     cov = ctx.cov
-    cov["evaluations"] = len(ends) + nmany
+    cov["evaluations"] = len(ends) + nmany + nfold
     cov["distinct_nontrivial"] = overl
     cov["calls_forwarded"] = nfwd
     cov["calls_rejected"] = len(ends) - nfwd
@@ -278,7 +466,10 @@ def run(ctx):
                    "plus the many-names run: 300 000 (quick) / 1 500 000 (thorough) distinct realistic names from 8 templates, one "
                    "point each, timestamps decreasing in dispatch order, 4 goroutines with disjoint name sets, judged by "
                    "OrderedTrace.tla on the projection to the names that did not arrive exactly once + 26 pairs colliding under "
-                   "common 32-bit hashes + a seeded sample, and on the totals")
+                   "common 32-bit hashes + a seeded sample, and on the totals; plus the fold family: 120 (quick) / 700 (thorough) "
+                   "histories on a table with order validation, a rewriter (regex or substring) folding the 2-5 input names of "
+                   "the history into one emitted name and a blacklist entry on one of them, patterns seq / lanes / mix, judged "
+                   "by OrderedTrace.tla input name by input name (register = input name) and on the totals of the history")
     for b in blocks:
         if len(cov["samples"]) < 2 and any(e["ev"] == "end" and not e["fwd"] for e in b):
             ctx.sample(dict(history=[{k: v for k, v in e.items() if k in ("ev", "c", "ts", "dot", "fwd", "ooo", "bad")} for e in b][:30]))
@@ -289,6 +480,9 @@ def run(ctx):
                         "process-global out_of_order counter during the history belongs to it",
                         "bad-metrics keeps one record per key: its presence and that it holds one of the rejected calls is checked, "
                         "not one record per rejection",
+                        "fold family: the points of a blacklisted name are all newer than the earlier points of that name (where a "
+                        "stale point of a blacklisted name is accounted, and whether a blacklisted point occupies the register, is "
+                        "not asserted here)",
                         "timestamps <= 2^31-1 (TLC integers)"]
     cov["trusted_base"] = ["TLC", "harness/ord driver (records only)", "capture route (harness) as the observation of forwarding"]
 
